@@ -50,6 +50,7 @@ type Scenario struct {
 	PubFail   bool              `json:"pubfail"` // the connection refuses to publish resource events
 	Pollute   bool              `json:"pollute"` // a request with a mistyped payload is processed first
 	Name      int               `json:"name"`    // which resource name variant
+	Wide      bool              `json:"wide"`    // the service owns ">" and is sent names of other services that merely start with its name
 }
 
 var apEvents = []string{"change", "add", "remove", "create", "delete"}
@@ -89,7 +90,7 @@ func (sc *Scenario) kind() string {
 
 // execute runs one scenario on a fresh service and returns its record.
 func execute(sc Scenario, rng *rand.Rand) (rec, error) {
-	rn := &runner{seen: map[string]string{}, loggedE: map[string]bool{"custom": true, "change": true, "add": true, "remove": true, "create": true, "delete": true}}
+	rn := &runner{seen: map[string]string{}, loggedE: map[string]bool{"$foo": true, "x-y_z~": true, "": true, "a b": true, "a*": true, "a>": true, "a?b": true, "a\x7f": true, "a.b": true, "custom": true, "change": true, "add": true, "remove": true, "create": true, "delete": true}}
 	nv := nameVariants[sc.Name%len(nameVariants)]
 	rn.rname = nv.name
 	s := res.NewService("test")
@@ -200,6 +201,9 @@ func execute(sc Scenario, rng *rand.Rand) (rec, error) {
 			return map[string]int{"old": 1}, nil
 		}))
 	}
+	if sc.Wide {
+		s.SetOwnedResources([]string{">"}, []string{">"})
+	}
 	if nv.mount {
 		s.Route("users", func(m *res.Mux) {
 			m.Handle("$id.details", res.Call("m", func(r res.CallRequest) { r.OK(nil) }))
@@ -289,6 +293,10 @@ func execute(sc Scenario, rng *rand.Rand) (rec, error) {
 		name = "test.nothing.here"
 		if nv.pattern == "$type.>" {
 			name = "test.solo" // the only kind of name that pattern does not match
+		}
+		if sc.Wide {
+			// a foreign resource whose first token starts with the service name; the rest would match the pattern
+			name = "test" + []string{"-", "_", "2", "s"}[rng.Intn(4)] + nv.name[5:]
 		}
 	}
 	subj := sc.Rtype + "." + name
@@ -557,6 +565,17 @@ func abstract(m rconn.Msg, inbox, rname, cid string) (rec, string) {
 	return msg, strings.Join(bad, "; ")
 }
 
+// values whose encoding fails with an error that is, or wraps, an error of the library's own type
+type badReserr struct{}
+
+func (badReserr) MarshalJSON() ([]byte, error) { return nil, res.ErrNotFound }
+
+type badWrapped struct{}
+
+func (badWrapped) MarshalJSON() ([]byte, error) {
+	return nil, fmt.Errorf("lazy lookup: %w", &res.Error{Code: "store.unavailable", Message: "Store unavailable"})
+}
+
 // doStep performs one script step on the request.
 func doStep(r *res.Request, st string) {
 	if strings.HasPrefix(st, "try-") {
@@ -574,6 +593,14 @@ func doStep(r *res.Request, st string) {
 		r.OK(nil)
 	case "ok-bad":
 		r.OK(make(chan int))
+	case "ok-bad-reserr":
+		r.OK(map[string]interface{}{"ref": badReserr{}})
+	case "ok-bad-wrapped":
+		r.OK(badWrapped{})
+	case "model-bad-reserr":
+		r.Model(map[string]interface{}{"ref": badReserr{}})
+	case "collection-bad-wrapped":
+		r.Collection([]interface{}{1, badWrapped{}})
 	case "resource":
 		r.Resource("test.other.1?q=1")
 	case "resource-bad":
@@ -652,6 +679,24 @@ func doStep(r *res.Request, st string) {
 		r.TokenEvent(map[string]string{"user": "x"})
 	case "ev-custom":
 		r.Event("custom", map[string]string{"k": `v"<`})
+	case "ev-dollar":
+		r.Event("$foo", map[string]int{"a": 1})
+	case "ev-punct":
+		r.Event("x-y_z~", nil)
+	case "ev-empty":
+		r.Event("", nil)
+	case "ev-space":
+		r.Event("a b", nil)
+	case "ev-wild":
+		r.Event("a*", nil)
+	case "ev-gt":
+		r.Event("a>", nil)
+	case "ev-q":
+		r.Event("a?b", nil)
+	case "ev-del":
+		r.Event("a\x7f", nil)
+	case "ev-dot":
+		r.Event("a.b", nil)
 	case "ev-reserved":
 		r.Event("change", nil)
 	case "ev-malformed":
@@ -697,11 +742,11 @@ func doStep(r *res.Request, st string) {
 
 var replySteps = map[string][]string{
 	"access": {"access", "access-none", "accessdenied", "accessgranted", "notfound", "invalidquery", "error-res", "error-plain", "error-res-ctl", "invalidquery-ctl"},
-	"get":    {"model", "querymodel", "collection", "model-bad", "notfound", "invalidquery", "error-res", "error-plain", "error-res-ctl", "error-plain-ctl"},
+	"get":    {"model", "model-bad-reserr", "collection-bad-wrapped", "querymodel", "collection", "model-bad", "notfound", "invalidquery", "error-res", "error-plain", "error-res-ctl", "error-plain-ctl"},
 	"new":    {"new", "new-bad", "notfound", "methodnotfound", "invalidparams", "error-res"},
-	"call":   {"ok", "ok-nil", "ok-bad", "resource", "resource-bad", "notfound", "methodnotfound", "invalidparams", "invalidparams-msg", "invalidquery", "error-res", "error-plain", "error-res-ctl", "error-plain-ctl", "invalidparams-ctl", "invalidquery-ctl"},
+	"call":   {"ok", "ok-nil", "ok-bad", "ok-bad-reserr", "ok-bad-wrapped", "resource", "resource-bad", "notfound", "methodnotfound", "invalidparams", "invalidparams-msg", "invalidquery", "error-res", "error-plain", "error-res-ctl", "error-plain-ctl", "invalidparams-ctl", "invalidquery-ctl"},
 }
-var otherSteps = []string{"timeout-max", "timeout-sub", "timeout-zero", "ev-custom-bad", "ev-change-bad", "ev-add-bad", "timeout", "timeout-neg", "ev-custom", "ev-reserved", "ev-malformed", "ev-change", "ev-change-empty", "ev-add", "ev-add-neg", "ev-remove",
+var otherSteps = []string{"ev-dollar", "ev-punct", "ev-empty", "ev-space", "ev-wild", "ev-gt", "ev-q", "ev-del", "ev-dot", "timeout-max", "timeout-sub", "timeout-zero", "ev-custom-bad", "ev-change-bad", "ev-add-bad", "timeout", "timeout-neg", "ev-custom", "ev-reserved", "ev-malformed", "ev-change", "ev-change-empty", "ev-add", "ev-add-neg", "ev-remove",
 	"ev-remove-neg", "ev-create", "ev-delete", "ev-reaccess", "ev-reset", "panic-res", "panic-err", "panic-str", "panic-int", "panic-nilerr", "panic-str-ctl",
 	"try-ev-custom", "try-ev-change", "try-ev-add", "try-ev-remove", "try-ev-create", "try-ev-delete", "try-ok", "try-panic-str", "try-ev-reserved"}
 
@@ -1076,6 +1121,7 @@ func Run(c *core.Ctx) {
 		if sc.Nl > 0 && rng.Intn(4) == 0 {
 			sc.Lpanic = 1 + rng.Intn(sc.Nl)
 		}
+		sc.Wide = rng.Intn(5) == 0
 		al := alphabet(&sc)
 		n := rng.Intn(5)
 		for j := 0; j < n; j++ {
